@@ -11,7 +11,8 @@
        dtype property                 -> dtype_of
    linear_operator/operators/linear_operator_representation_tree.py   __call__ -> call
    linear_operator/utils/generic.py   _to_helper -> to_helper
-   to()/type() overrides of identity_, interpolated_, masked_, cat_, permutation_ (TransposePermutation.type)
+   to()/type() overrides of identity_, zero_, interpolated_, masked_, cat_, permutation_ (Permutation.to,
+   TransposePermutation.type)
    per-class constructors             -> ctor  =  bind (Python call binding against the signature table
                                                  gen/Ctors.v, generated from the source) ; norm_pos (the
                                                  constructor's structural normalisation of its positional
@@ -397,7 +398,9 @@ Definition on_arg (m : meth) (a : arg) (n : nat) : option (arg * nat) :=
       end
   end.
 
-(* the positional-argument loop of the to() overrides in interpolated_, masked_, identity_ *)
+(* the positional-argument loop of the to() overrides in interpolated_, masked_, identity_:
+     if dtype is not None and hasattr(arg, "dtype") and arg.dtype.is_floating_point == dtype.is_floating_point:
+         arg.to(dtype=dtype, device=device)   else: arg.to(device=device) *)
 Definition on_arg_guarded (d : option dt) (dev : option nat) (a : arg) (n : nat) : option (arg * nat) :=
   match a with
   | AOther _ => Some (a, n)
@@ -406,11 +409,23 @@ Definition on_arg_guarded (d : option dt) (dev : option nat) (a : arg) (n : nat)
       | Some da, Some d' =>
           if Bool.eqb (is_float da) (is_float d') then on_arg (MTo (Some d') dev) a n
           else on_arg (MTo None dev) a n                  (* arg.to(device=device) *)
-      | Some _, None => None                              (* dtype.is_floating_point on None: AttributeError *)
-      | None, _ => None                                   (* unmodelled: operator without a dtype *)
+      | _, None => on_arg (MTo None dev) a n              (* dtype is None: arg.to(device=device), arg.dtype is not read *)
+      | None, Some _ => None                              (* unmodelled: operator without a dtype *)
       end
   end.
 End Args.
+
+(* `x if requested is None else requested`, where x is the operator's own dtype / device: an attribute that the
+   constructor sets to the value of the keyword argument of the same name (Identity, Zero) *)
+Definition keep_or (k : Z) (v : value) (nd : list (Z * value)) : option value :=
+  match v with VNone => lookup k nd | _ => Some v end.
+(* ZeroLinearOperator.to / .type:  self.__class__( *self.sizes, dtype=..., device=... )  (self.sizes = list(sizes) = _args) *)
+Definition zero_kw (vdt vdev : value) : list (Z * arg) := [(k_dtype, AOther vdt); (k_device, AOther vdev)].
+(* PermutationLinearOperator.to:  res = self.__class__(self.perm.to(device=device), self.inv_perm.to(device=device),
+   validate_args=self._kwargs["validate_args"]);  if dtype is not None: res._dtype = dtype   -  the index tensors are
+   never cast (Tensor.to(device=<same device>) returns the tensor itself) *)
+Definition perm_attrs (d : option dt) (at_ : list (Z * value)) : list (Z * value) :=
+  match d with Some x => set_key k_dtype (VDtype x) at_ | None => at_ end.
 
 Fixpoint meth_call (fuel : nat) (m : meth) (o : arg) (n : nat) {struct fuel} : option (arg * nat) :=
   match fuel with
@@ -436,7 +451,11 @@ Fixpoint meth_call (fuel : nat) (m : meth) (o : arg) (n : nat) {struct fuel} : o
                   match map_st (on_arg (meth_call f) m) (skipn k ch) n1 with
                   | Some (kv', n2) =>
                       if cls_eqb c CIdentity
-                      then again (a' ++ kv') (set_key k_dtype (dt_val d) (set_key k_device (dev_val dev) nd)) n2
+                      then (* new_kwargs["device"] = self.device if device is None else device ; same for dtype *)
+                           match keep_or k_dtype (dt_val d) nd, keep_or k_device (dev_val dev) nd with
+                           | Some vdt, Some vdev => again (a' ++ kv') (set_key k_dtype vdt (set_key k_device vdev nd)) n2
+                           | _, _ => None
+                           end
                       else again (a' ++ kv') nd n2
                   | None => None
                   end
@@ -446,6 +465,21 @@ Fixpoint meth_call (fuel : nat) (m : meth) (o : arg) (n : nat) {struct fuel} : o
               match again ch (set_key k_output_device (dev_val dev) nd) n with
               | Some (res, n1) => match d with Some d' => meth_call f (MType d') res n1 | None => Some (res, n1) end
               | None => None
+              end
+            else if cls_eqb c CZero then
+              match keep_or k_dtype (dt_val d) nd, keep_or k_device (dev_val dev) nd with
+              | Some vdt, Some vdev =>
+                  match ctor c (firstn k ch) (zero_kw vdt vdev) with Some r => Some (r, n) | None => None end
+              | _, _ => None
+              end
+            else if cls_eqb c CPermutation then
+              match ch, lookup k_validate_args nd with
+              | [ATensor p; ATensor q], Some va =>
+                  match ctor c [ATensor p; ATensor q] [(k_validate_args, AOther va)] with
+                  | Some (AOp c' ch' dn' nd' at') => Some (AOp c' ch' dn' nd' (perm_attrs d at'), n)
+                  | _ => None
+                  end
+              | _, _ => None
               end
             else generic
         | MType d =>
@@ -459,6 +493,11 @@ Fixpoint meth_call (fuel : nat) (m : meth) (o : arg) (n : nat) {struct fuel} : o
               end
             else if cls_eqb c CTransposePermutation then
               Some (AOp c ch dn nd (set_key k_dtype (VDtype d) at_), n)     (* self._dtype = dtype; return self *)
+            else if cls_eqb c CZero then
+              match lookup k_device nd with                                  (* dtype=dtype, device=self._device *)
+              | Some vdev => match ctor c (firstn k ch) (zero_kw (VDtype d) vdev) with Some r => Some (r, n) | None => None end
+              | None => None
+              end
             else generic
         end
     | _ => None
